@@ -427,7 +427,10 @@ def run(ctx: Ctx):
     p = subprocess.run([sys.executable, "-W", "ignore", "-m", "vf.translate.lyap", "--check"], cwd=VERIF, capture_output=True, text=True)
     ctx.obligation("Proofs/LyapK3.lean reproduced byte for byte by vf/translate/lyap.py", p.returncode == 0, (p.stdout + p.stderr)[-600:], kind="generated")
     leanproj.check_theorems(ctx, MODULE, THEOREMS)
-    from .registry import THEOREMS_C09C
+    from .registry import THEOREMS_C09C, THEOREMS_RESUMETIE
+    from ..translate import gen as _gen
+    _gen.regenerate(ctx, ["ResumeIdx"])
+    leanproj.check_theorems(ctx, "PyseqmVerif.Properties.ResumeTie", [t for t in THEOREMS_RESUMETIE if "xlSlot" in t])
     leanproj.check_theorems(ctx, "PyseqmVerif.Properties.C09c", THEOREMS_C09C)
     drv = leanproj.Driver()
     try:
